@@ -178,6 +178,19 @@ type Converter interface {
 		f4c[pk+"/input.go"] = "package " + pk + "\n\ntype In struct{ V int }\ntype Out struct{ V int }\n\n// goverter:converter\n// goverter:output:raw func broken" + strings.ToUpper(pk) + "( {\ntype Converter interface {\n\tConvert(source In) Out\n}\n"
 	}
 	ps = append(ps, c09Prog{name: "f_render", pkgs: []string{"./r1", "./r2", "./r3"}, fails: true, files: f4c, note: "three output files that cannot be rendered"})
+	// F4d: output locations that are occupied (a directory where the file should go), relative to the declaring file and to @cwd
+	ps = append(ps, c09Prog{name: "f_outdir", pkgs: []string{"./p", "./q"}, fails: true, note: "output files whose location is a directory",
+		files: map[string]string{
+			"p/out/gen.go/keep.txt":  "occupied\n",
+			"p/input.go":             "package p\n\ntype In struct{ V int }\ntype Out struct{ V int }\n\n// goverter:converter\n// goverter:output:file ./out/gen.go\ntype Converter interface {\n\tConvert(source In) Out\n}\n",
+			"cwdout/gen.go/keep.txt": "occupied\n",
+			"q/input.go":             "package q\n\ntype In struct{ V int }\ntype Out struct{ V int }\n\n// goverter:converter\n// goverter:output:file @cwd/cwdout/gen.go\ntype Converter interface {\n\tConvert(source In) Out\n}\n",
+		}})
+	ps = append(ps, c09Prog{name: "f_outdir_rel", pkgs: []string{"./p"}, fails: true, note: "relative output file whose location is a directory",
+		files: map[string]string{
+			"p/out/gen.go/keep.txt": "occupied\n",
+			"p/input.go":            "package p\n\ntype In struct{ V int }\ntype Out struct{ V int }\n\n// goverter:converter\n// goverter:output:file ./out/gen.go\ntype Converter interface {\n\tConvert(source In) Out\n}\n",
+		}})
 	// S7: @cwd output into an existing package whose name differs from its directory
 	ps = append(ps, c09Prog{name: "cwdexisting", pkgs: []string{"./p"}, note: "@cwd output file next to an existing package with another name",
 		files: map[string]string{
